@@ -1070,6 +1070,51 @@ func (fi *FuncInfo) hasPairCheck() (bool, string) {
 		if !ok || ast.Unparen(is.Cond) != ast.Expr(id) {
 			continue
 		}
+		// insertion form: every new input is compared with all inputs kept so far, then appended
+		//   for _, prev := range S { if Identical(x, prev.Type) { return error } }; S = append(S, T{Type: x, …})
+		if in, ok := fi.enclosingLoop(is).(*ast.RangeStmt); ok && in.Value != nil && terminates(is.Body) && len(in.Body.List) == 1 {
+			prev := fi.varOf(in.Value)
+			var x ast.Expr
+			for i, a := range id.Args {
+				if sel, ok := ast.Unparen(a).(*ast.SelectorExpr); ok && fi.varOf(sel.X) == prev && sel.Sel.Name == "Type" {
+					x = id.Args[1-i]
+				}
+			}
+			if outer := fi.enclosingLoop(in); x != nil && outer != nil {
+				blk, _ := fi.parent[ast.Node(in)].(*ast.BlockStmt)
+				appended := false
+				if blk != nil {
+					after := false
+					for _, st := range blk.List {
+						if st == ast.Stmt(in) {
+							after = true
+							continue
+						}
+						if !after {
+							continue
+						}
+						as, ok := st.(*ast.AssignStmt)
+						if !ok || len(as.Rhs) != 1 || !fi.sameExpr(as.Lhs[0], in.X) {
+							continue
+						}
+						ap := fi.isBuiltin(as.Rhs[0], "append")
+						if ap == nil || len(ap.Args) != 2 || !fi.sameExpr(ap.Args[0], in.X) {
+							continue
+						}
+						if cl, ok := ast.Unparen(ap.Args[1]).(*ast.CompositeLit); ok {
+							for _, el := range cl.Elts {
+								if kv, ok := el.(*ast.KeyValueExpr); ok && kv.Key.(*ast.Ident).Name == "Type" && fi.sameExpr(kv.Value, x) {
+									appended = true
+								}
+							}
+						}
+					}
+				}
+				if appended {
+					return true, "each input is compared with every input kept before it, then appended"
+				}
+			}
+		}
 		// enclosing loops (inner, outer)
 		inner := fi.enclosingLoop(is)
 		if inner == nil {
